@@ -3,6 +3,7 @@ package main
 // Assumed contracts for library functions (listed in evidence as trusted).
 
 import (
+	"fmt"
 	"strings"
 	"go/ast"
 	"go/constant"
@@ -19,6 +20,7 @@ var libPure = map[string]bool{
 	"(*bytes.Buffer).Write": true, "(*bytes.Buffer).WriteString": true, "(*strings.Builder).WriteString": true, "(*bytes.Buffer).WriteByte": true,
 	"(image/color.Model).Convert": true, "(image.Image).ColorModel": true, "(image/draw.Image).ColorModel": true, "(golang.org/x/image/draw.Image).ColorModel": true,
 	"(image.Image).At": true, "(image/draw.Image).At": true, "(golang.org/x/image/draw.Image).At": true, "(image/color.Color).RGBA": true,
+	"(*github.com/srwiley/scanx.Scanner).SetColor": true,
 	"fmt.Println": true, "fmt.Printf": true, "fmt.Print": true, "log.Println": true, "log.Printf": true,
 	"(*bytes.Buffer).Bytes": true, "(*bytes.Buffer).String": true, "(*bytes.Buffer).Len": true, "(*strings.Builder).String": true, "(*strings.Builder).Len": true,
 	"fmt.Errorf": true, "fmt.Sprintf": true, "fmt.Sprint": true, "fmt.Sprintln": true, "errors.New": true,
@@ -141,6 +143,20 @@ func (x *Exec) callLibrary(s *State, fn *types.Func, recv *Term, args []*Term, c
 	case "(image/color.Model).Convert", "(image.Image).ColorModel", "(image/draw.Image).ColorModel", "(golang.org/x/image/draw.Image).ColorModel",
 		"(image.Image).At", "(image/draw.Image).At", "(golang.org/x/image/draw.Image).At", "(image/color.Color).RGBA":
 		libUsed[full] = "read-only query of an image / colour value: returns some value, writes nothing"
+		if full == "(image/color.Color).RGBA" && recv != nil {
+			// a colour's components are a function of the colour value
+			var out []*Term
+			for i := 0; i < 4; i++ {
+				v := x.uf(fmt.Sprintf("ext_Color_RGBA_%d", i), SInt, recv)
+				s.assume(And(Cmp("<=", IntLit(0), v), Cmp("<=", v, IntLit(65535))))
+				out = append(out, v)
+			}
+			return out, true
+		}
+		return x.havocResults(s, call), true
+	case "(*github.com/srwiley/scanx.Scanner).SetColor":
+		libUsed[full] = "stores the colour (or colour function) in the scanner: writes nothing of the verified module"
+		s.log = append(s.log, "@"+full)
 		return x.havocResults(s, call), true
 	case "fmt.Println", "fmt.Printf", "fmt.Print", "log.Println", "log.Printf":
 		libUsed[full] = "writes to the process's standard streams only: nothing reachable from the verified state"
